@@ -608,13 +608,20 @@ func finish(o *Orch, plan *Plan, tier string, verifSeed uint64, agg *Agg, start 
 			}
 			continue
 		}
-		k := vkey{"C19", "process-died", crashClass(stderr)}
+		// an operation that never returns (or takes the process down) is C19's subject; it also
+		// contradicts the properties that say what must come back instead: a refusal (C10), an
+		// error (C12), termination (C14)
+		prop := "C19"
+		if id == "C10" || id == "C12" || id == "C14" {
+			prop = id
+		}
+		k := vkey{prop, "process-died", crashClass(stderr)}
 		detail := "worker process died inside the operation: " + lastLines(stderr, 6)
 		if timedOut {
-			k = vkey{"C19", "op-timeout", "hang"}
+			k = vkey{prop, "op-timeout", "hang"}
 			detail = "operation did not return within its real-time budget"
 		}
-		if id != "C19" {
+		if id != prop {
 			agg.OtherProps["C19"]++
 			continue
 		}
